@@ -62,7 +62,7 @@ func VerifC01_CloneFileSeed_E() {
 
 func VerifC01_CloneNullSeed_E() {
 	vUnwind(8)
-	bs := []uint64{512, 4096}[vChoose("blocksize", 2)]
+	bs := []uint64{512, 4096, 65536}[vChoose("blocksize", 3)] // 64k blocks: head and tail copies of up to 65535 zero bytes
 	dst, n := vU64("dstOffset"), vU64("length")
 	vAssume(dst < 1<<40 && n > 0 && n < 4*bs) // at most 4 clone calls
 	s := &nullChunkSection{from: 0, to: n, canReflink: true}
